@@ -376,13 +376,20 @@ Proof.
   repeat match goal with |- context [if ?b then _ else _] => destruct b eqn:? end; lia.
 Qed.
 
-(** v = 0: honoured, or (pinned tree: `if qmax <= 0 { qmax = 100 }`) replaced by 100. *)
-Theorem ratectl_qmax_zero : ratectl_qmax 0 = 0 \/ (ratectl_qmax 0 = 100 /\ ~ ratectl_honours_explicit_qmax).
+(** The full statement holds (since 17c8929 the rule is [qmax < 0]): if the source rule changes
+    back, this proof breaks. *)
+Theorem ratectl_honours_explicit_qmax_holds : ratectl_honours_explicit_qmax.
 Proof.
-  first [ left; vm_compute; reflexivity
-        | right; split; [vm_compute; reflexivity|];
-          intros H; specialize (H 0 ltac:(lia)); vm_compute in H; discriminate ].
+  intros v H. unfold ratectl_qmax.
+  remember F.ratectl_qmax_rule as r eqn:E. vm_compute in E. subst r. cbn.
+  repeat match goal with |- context [if ?b then _ else _] => destruct b eqn:? end; lia.
 Qed.
+
+(** Historic defect, stated about a pinned definition that no run selects: with the rule
+    [qmax <= 0 -> 100] the explicit value 0 was replaced by 100. *)
+Definition pinned_ratectl_qmax_le_rule (v : Z) : Z := if v <=? 0 then 100 else v.
+Theorem pinned_ratectl_le_rule_refuted : exists v, 0 <= v <= 100 /\ pinned_ratectl_qmax_le_rule v <> v.
+Proof. exists 0. split; [lia|]. vm_compute. discriminate. Qed.
 
 (** * 11. QMin / QMax as the quantizer range of Quality *)
 (** Full documented statement ("QMin / QMax set the minimum / maximum quantizer value"): the
@@ -423,34 +430,36 @@ Proof.
           repeat match goal with |- context [if ?b then _ else _] => destruct b eqn:? end; lia ].
 Qed.
 
-(** With a target: decided by the regenerated source.  Either the propagation block clamps
-    (then the range holds for every option value), or it does not (pinned tree) and the
-    statement is refuted by Quality 90, QMin = QMax = 30, TargetSize 600. *)
-Theorem quality_in_range_when_target_or_refuted :
-  quality_in_range_when_target \/ (F.quality_clamp_rule = [] /\ ~ quality_in_range_when_target).
+(** With a target the range holds for every option value (since d401cf2 the propagation block
+    clamps): if the clamps disappear from the source, [apply_clamps_in_range]'s premise
+    [F.quality_clamp_rule <> []] can no longer be discharged and this proof breaks. *)
+Theorem quality_in_range_when_target_holds : quality_in_range_when_target.
 Proof.
-  first
-  [ right; split; [reflexivity|];
-    intros H; pose proof (H (Some (ex_q90_range30 600)) 16 16 false) as H';
-    vm_compute in H'; specialize (H' _ _ _ _ _ eq_refl eq_refl); destruct H' as [_ H2]; apply H2; reflexivity
-  | left; intros oo w h ha c a e s m He Hg;
-    rewrite effective_eq in He; unfold effective_doc in He;
-    set (o := match oo with None => doc_default_options | Some o => o end) in *;
-    destruct (validate_doc o) eqn:V; [discriminate|];
-    apply validate_doc_false_iff in V;
-    destruct ((w <=? 0) || (h <=? 0)); [discriminate|];
-    destruct ((w >? 16383) || (h >? 16383)); [discriminate|];
-    destruct (fl_to_int (oQuality o)) as [q|]; [|discriminate];
-    destruct (oLossless o); [discriminate|];
-    injection He as <- _ _ _ _;
-    destruct (apply_clamps_spec (lossy_config_doc o q ha)) as [q' [Es _]];
-    pose proof (dv_q _ V) as Hq;
-    assert (Hg' : (cTargetSize (lossy_config_doc o q ha) >? 0) || fl_gt (cTargetPSNR (lossy_config_doc o q ha)) 0 = true)
-      by (rewrite Es in Hg; exact Hg);
-    pose proof (apply_clamps_in_range (lossy_config_doc o q ha) ltac:(discriminate)
-                  ltac:(unfold lossy_config_doc; cbn [cQMin cQMax]; lia) Hg') as R;
-    rewrite Es in *; unfold set_quality in *; cbn [cQuality cQMin cQMax] in *; exact R ].
+  intros oo w h ha c a e s m He Hg.
+  rewrite effective_eq in He. unfold effective_doc in He.
+  set (o := match oo with None => doc_default_options | Some o => o end) in *.
+  destruct (validate_doc o) eqn:V; [discriminate|].
+  apply validate_doc_false_iff in V.
+  destruct ((w <=? 0) || (h <=? 0)); [discriminate|].
+  destruct ((w >? 16383) || (h >? 16383)); [discriminate|].
+  destruct (fl_to_int (oQuality o)) as [q|]; [|discriminate].
+  destruct (oLossless o); [discriminate|].
+  injection He as <- _ _ _ _.
+  destruct (apply_clamps_spec (lossy_config_doc o q ha)) as [q' [Es _]].
+  pose proof (dv_q _ V) as Hq.
+  assert (Hg' : (cTargetSize (lossy_config_doc o q ha) >? 0) || fl_gt (cTargetPSNR (lossy_config_doc o q ha)) 0 = true)
+    by (rewrite Es in Hg; exact Hg).
+  pose proof (apply_clamps_in_range (lossy_config_doc o q ha) ltac:(discriminate)
+                ltac:(unfold lossy_config_doc; cbn [cQMin cQMax]; lia) Hg') as R.
+  rewrite Es in *. unfold set_quality in *. cbn [cQuality cQMin cQMax] in *. exact R.
 Qed.
+
+(** Historic defect, about the pinned unclamped configuration [lossy_config_pre] (what the
+    propagation block computed before d401cf2): Quality 90, QMin = QMax = 30, TargetSize 600. *)
+Theorem pinned_unclamped_config_out_of_range :
+  let c := lossy_config_pre (ex_q90_range30 600) 90 false in
+  cTargetSize c = 600 /\ cQMax c = 30 /\ cQuality c = 90.
+Proof. vm_compute. repeat split. Qed.
 
 (** * 12. every field of EncoderOptions: which checks it goes through (from the regenerated tables) *)
 Definition atom_fields (a : F.vatom) : list Z :=
